@@ -903,7 +903,8 @@ func (s *c19Sess) runList(ops []*c19Op, gate *c19Gate, skew int) {
 // generators
 
 var (
-	c19Kinds = []int64{0, 1, 3, 5, 7, 1059, 10002, 20001, 30023, 40000, 65535}
+	// incl. powers of two and their neighbours (table sizes of a per-kind fast path)
+	c19Kinds = []int64{0, 1, 3, 5, 7, 255, 256, 1023, 1024, 1025, 1059, 2048, 4096, 10002, 20001, 30023, 32768, 40000, 65535, 65536}
 	// short ids, ids that differ only in case / surrounding blanks, and ids that are longer than
 	// 64 bytes and differ only beyond byte 64 (nothing in the relay enforces a length)
 	c19SubPool = []string{"a", "b", "sub-1", "", "x:y", "α", " a", "b ", "A",
@@ -1574,6 +1575,9 @@ func c19NewGroup(rep *vk.Report, profile string, gi int, r *rand.Rand) *c19Group
 	g := &c19Group{rep: rep, profile: profile, gi: gi, abort: make(chan struct{}), lo: map[string]int64{}, hi: map[string]int64{}, feat: map[string]bool{}}
 	g.reg = prom.NewRegistry()
 	n := 2 + r.IntN(3)
+	if r.IntN(5) == 0 { // many subscriptions open at once in one session
+		n = 8 + r.IntN(4)
+	}
 	perm := r.Perm(len(c19SubPool))
 	for _, i := range perm[:n] {
 		g.subIDs = append(g.subIDs, c19SubPool[i])
